@@ -310,3 +310,34 @@ def parallel_cases(seed, count, max_side, tag, kinds=None, big=False):
                     steps.append(dict(op="kernel", g=gid, dir="depth", thr=2))
         steps += [dict(op="drop", g=gid) for gid in range(len(thrs))]
         yield flow_case("%s-%d-%d" % (tag, seed, i), g, steps, timeout_ms=30000)
+
+
+def basin_graph_cases(seed, count, max_side, tag, high_degree=0):
+    """C15: stand-alone basin graphs (both tree algorithms) on single-router graphs; heavy ties; the
+    same basin-graph object is updated again with other fields, masks and base levels."""
+    rng = random.Random(seed)
+    for i in range(count):
+        g = gen.rand_grid(rng, max_side=max_side, kinds=("raster", "raster", "raster", "profile", "mesh"))
+        n = gen.grid_size(g)
+        steps = [dict(op="new", g=0, ops=[gen.op_single()])]
+        for rep in range(3):
+            z = gen.rand_field(rng, g, rng.choice(["tied", "tied", "tied3", "bowl", "distinct", "flat", "sub"]))
+            mask, bl = gen.rand_mask_bl(rng, g, p_bl=0.1)
+            steps += [dict(op="mask", g=0, m=mask), dict(op="bl", g=0, bl=bl), dict(op="update", g=0, z=z),
+                      dict(op="bgraph", g=0, m="kruskal"), dict(op="bgraph", g=0, m="boruvka")]
+        steps.append(dict(op="drop", g=0))
+        yield flow_case("%s-%d-%d" % (tag, seed, i), g, steps)
+    for i in range(high_degree):
+        # one channel basin next to many small pits: basin degree far above Boruvka's low-degree bound
+        ncols = rng.randint(24, 40)
+        g = gen.raster(3, ncols, "rook", [gen.CORE] * 4)
+        m = [0] * (3 * ncols)
+        tied = rng.random() < 0.5
+        for c in range(ncols):
+            m[ncols + c] = 10 * c + 100
+            for r in (0, 2):
+                m[r * ncols + c] = 100000 if c % 2 else (10 * c + 99 - (0 if tied else rng.randint(0, 5)))
+        steps = [dict(op="new", g=0, ops=[gen.op_single()]), dict(op="bl", g=0, bl=[ncols]),
+                 dict(op="update", g=0, z=dict(k="int", m=m, e=0)),
+                 dict(op="bgraph", g=0, m="kruskal"), dict(op="bgraph", g=0, m="boruvka"), dict(op="drop", g=0)]
+        yield flow_case("%s-hd-%d-%d" % (tag, seed, i), g, steps, timeout_ms=30000)
